@@ -5,10 +5,12 @@
   (Sem/Deser.lean: per-field pass `deserFields`, undeclared keys `deserExtras`, the constructor `vConstruct` with
   validation — nested classes and their undeclared keys included) and with `Versioned.__init__`, which overwrites the
   `version` keyword with `len(_versions_mapping) + 1` before the constructor validates it.
-  Non-trusted path (no `direct_trusted_mapping`), classes without mappers.
+  Classes without mappers; regular path (`deserializeVersioned`) and `direct_trusted_mapping=True`
+  (`deserializeVersionedTrusted`, Sem/Trusted.lean).
 -/
 import TypedpyModel.Sem.Convert
 import TypedpyModel.Sem.Deser
+import TypedpyModel.Sem.Trusted
 namespace Typedpy.ConvertDeser
 open Typedpy
 
@@ -59,6 +61,24 @@ def versionedRest (O : Oracles) (opts : DeserOpts) (cls : FieldDecl) (latest : I
 def deserializeVersioned (O : Oracles) (opts : DeserOpts) (cls : FieldDecl) (ms : Option (List Convert.Mapping))
     (d : Convert.Json) : Convert.R (R PyVal) :=
   Convert.deserVersioned (versionedRest O opts cls (((ms.getD []).length : Int) + 1)) ms d
+
+/-- the remainder with `direct_trusted_mapping=True` (class without mappers): an eligible class
+    (`_structure_simplicity_level`, Sem/Trusted.lean `verdictOf`) is built by `from_trusted_data`, which still calls
+    `__init__` on the unvalidated keywords: `Versioned.__init__` forces `version` here too (every keyword becomes an
+    attribute as it is); an ineligible class takes the regular remainder -/
+def versionedRestTrusted (O : Oracles) (opts : DeserOpts) (cls : FieldDecl) (latest : Int) (d : Convert.Json) :
+    R PyVal :=
+  match verdictOf noMappers cls with
+  | .no => versionedRest O opts cls latest d
+  | _ =>
+    match deserializeTrusted noMappers O opts cls (toPy d) with
+    | .ok (.inst n attrs) => .ok (.inst n (setKw "version" (.int latest) attrs))
+    | other => other
+
+/-- `Deserializer(cls).deserialize(d, direct_trusted_mapping=True)` for a `Versioned` class -/
+def deserializeVersionedTrusted (O : Oracles) (opts : DeserOpts) (cls : FieldDecl)
+    (ms : Option (List Convert.Mapping)) (d : Convert.Json) : Convert.R (R PyVal) :=
+  Convert.deserVersioned (versionedRestTrusted O opts cls (((ms.getD []).length : Int) + 1)) ms d
 
 /-- the latest (non-`Versioned`) class on a document: plain `Typedpy.deserialize` -/
 def deserializePlain (O : Oracles) (opts : DeserOpts) (cls : FieldDecl) (d : Convert.Json) : R PyVal :=
